@@ -50,6 +50,36 @@ C24OK == /\ Obs.reqSent = RefNeedsNetwork
                /\ ~ \E k2 \in 1..(k-1) : Obs.wire[k2].blk /\ Obs.wire[k2].c = Obs.wire[k].c
 JudgeRef == PrintT(ToJson([id |-> Cases[caseNo].case.id, c02 |-> C02OK, c03 |-> C03OK, c24 |-> C24OK, na02 |-> NA02]))
 
+\* ---------------------------------------------------------------- C07: link budgets
+\* The enforcing peer makes link visits in its traversal order; a visit whose block is unavailable
+\* still uses up budget in go-ipld-prime.  "Blocks the traversal needs" is read as link visits when
+\* judging (reading A) or as blocks actually loaded (reading L); a run is accepted if it satisfies
+\* the statement under either reading (they coincide whenever every visited block is available).
+Case == Cases[caseNo].case
+Budget == Case.budget
+OnRequestor == Case.where \in {"reqG", "reqH", "reqGH", "reqHG"}
+ReqVisits == Cardinality({ i \in V : RefVisit(i) })           \* link visits of the requestor's traversal
+ReqLoadsNeeded == Cardinality(RefDelivered)
+RespVisits == Len(RespReached)
+RespLoadsNeeded == Cardinality({ i \in V : RespReach(i) /\ cid[i] \in Sr })
+ObsLoaded == Len(Obs.delivered)
+ObsAttempts == Len(Obs.delivered) + Len(Obs.missing)
+WirePresent == Cardinality({ k \in 1..Len(Obs.wire) : Obs.wire[k].act = "p" })
+C07Req ==
+  \/ /\ ~Obs.budgetErr /\ (ReqVisits <= Budget \/ ReqLoadsNeeded <= Budget)          \* enough budget: no budget failure (the result itself is C02's)
+     /\ ObsLoaded <= Budget
+  \/ /\ Obs.budgetErr /\ ReqVisits > Budget /\ ObsAttempts = Budget /\ ObsLoaded <= Budget   \* reading A
+  \/ /\ Obs.budgetErr /\ ReqLoadsNeeded > Budget /\ ObsLoaded = Budget                       \* reading L
+  \/ /\ RootRefused /\ ~Obs.budgetErr /\ ObsLoaded <= Budget      \* the responder's content-not-found ended the request first
+C07Resp ==
+  IF ~Obs.reqSent THEN ~Obs.budgetErr
+  ELSE \/ /\ Obs.status = RespStatus /\ (RespVisits <= Budget \/ RespLoadsNeeded <= Budget)
+          /\ Len(Obs.wire) = RespVisits
+       \/ /\ Obs.status = "failed" /\ RespVisits > Budget /\ Len(Obs.wire) = Budget /\ WirePresent <= Budget
+       \/ /\ Obs.status = "failed" /\ RespLoadsNeeded > Budget /\ WirePresent = Budget
+C07OK == ~Obs.hang /\ IF OnRequestor THEN C07Req ELSE C07Resp
+JudgeBudget == PrintT(ToJson([id |-> Case.id, c07 |-> C07OK]))
+
 ImplMatches == /\ Obs.delivered = delivered
                /\ ToSet(Obs.missing) = errs
                /\ (Obs.otherErrs = <<>>) = (fatal = "none")
